@@ -58,4 +58,56 @@ theorem gensign_handler_pinned : Gen.SnapGensignAux.gensign_handler = ([
   (c!"type", [c!"Handler interface { csr.Generator Name() string Authenticate(params *csr.ReqParam) error }"])
 ] : List (Str × List Str)) := rfl
 
+theorem gensign_error_pinned : Gen.SnapGensignAux.gensign_error = ([
+  (c!"type", [c!"Error struct { etype ErrorType err error handlerName string }"]),
+  (c!"NewErr func(t ErrorType, err ...error) *Error", [c!"return NewError(t, \"\", err...)"]),
+  (c!"NewError func(t ErrorType, handlerName string, err ...error) *Error", [c!"if len(err) == 0 { err = []error{nil} }", c!"return &Error{ etype: t, err: err[0], handlerName: handlerName, }"]),
+  (c!"NewErrWithMsg func(t ErrorType, msg string) *Error", [c!"return NewErrorWithMsg(t, \"\", msg)"]),
+  (c!"NewErrorWithMsg func(t ErrorType, handlerName string, msg string) *Error", [c!"return &Error{ etype: t, handlerName: handlerName, err: errors.New(msg), }"]),
+  (c!"(Error).Error func() string", [c!"var builder strings.Builder", c!"if e.handlerName != \"\" { builder.WriteString(fmt.Sprintf(\"%v \", e.handlerName)) }", c!"builder.WriteString(e.etype.String())", c!"if e.err != nil { builder.WriteString(fmt.Sprintf(\", %v\", e.err.Error())) }", c!"return builder.String()"]),
+  (c!"(Error).Type func() ErrorType", [c!"return e.etype"]),
+  (c!"type", [c!"ErrorType uint8"]),
+  (c!"const", [c!"_ ErrorType = iota", c!"Unknown", c!"HandlerDisabled", c!"HandlerAuthN", c!"InvalidParams", c!"HandlerGenCSRErr", c!"HandlerConfErr", c!"AllAuthFailed", c!"SignerSignErr", c!"AgentOpCertErr", c!"Panic"]),
+  (c!"(ErrorType).String func() string", [c!"switch t { case HandlerDisabled: return \"handler is disabled\" case HandlerAuthN: return \"handler authentication error\" case InvalidParams: return \"handler receives invalid parameters\" case HandlerGenCSRErr: return \"handler fails to generate csr\" case HandlerConfErr: return \"handler configuration error\" case AllAuthFailed: return \"all authentications failed\" case SignerSignErr: return \"signer fails to sign certificate\" case AgentOpCertErr: return \"agent fails to operate certificate\" case Panic: return \"panic\" default: return \"unknown error type\" }"]),
+  (c!"IsErrorOfType func(err interface{}, typ ErrorType) bool", [c!"e, ok := IsError(err)", c!"if !ok { return false }", c!"return e.Type() == typ"]),
+  (c!"IsError func(err interface{}) (*Error, bool)", [c!"if e, ok := err.(*Error); ok { return e, ok }", c!"return nil, false"])
+] : List (Str × List Str)) := rfl
+
+theorem gensign_otel_pinned : Gen.SnapGensignAux.gensign_otel = ([
+  (c!"const", [c!"scopeName = \"github.com/theparanoids/ysshra/gensign\"", c!"ysshraPanic = \"ysshra.panic\"", c!"ysshraGensign = \"ysshra.gensign.run\""]),
+  (c!"var", [c!"meter metric.Meter"]),
+  (c!"init func()", [c!"meter = otel.GetMeterProvider().Meter(scopeName)"]),
+  (c!"ExportPanicMetric func(ctx context.Context, _ *csr.ReqParam, msg string)", [c!"var err error", c!"panicCounter, err := meter.Int64Counter( ysshraPanic, metric.WithUnit(\"1\"), metric.WithDescription(\"Count the number of HTTP handler panic\"), )", c!"if err != nil { log.Printf(\"Error creating metric for panic: %v\\n\", err) }", c!"panicCounter.Add(ctx, 1, metric.WithAttributes( attribute.String(\"panic.message\", msg), ))"]),
+  (c!"ExportGensignRunMetric func(ctx context.Context, runErr error)", [c!"var err error", c!"gensignRunCounter, err := meter.Int64Counter( ysshraGensign, metric.WithUnit(\"1\"), metric.WithDescription(\"Count the number of gensign runs\"), )", c!"if err != nil { log.Printf(\"Error creating metric for gensign run: %v\\n\", err) }", c!"var attributes []attribute.KeyValue", c!"if runErr != nil { gensignErr, ok := IsError(runErr) if ok { attributes = append(attributes, attribute.Int(\"gensign.error.type\", int(gensignErr.Type()))) } else { attributes = append(attributes, attribute.Int(\"gensign.error.type\", int(Unknown))) } }", c!"gensignRunCounter.Add(ctx, 1, metric.WithAttributes(attributes...))"])
+] : List (Str × List Str)) := rfl
+
+theorem cmd_gensign_main_pinned : Gen.SnapGensignAux.cmd_gensign_main = ([
+  (c!"const", [c!"confPath = \"/opt/ysshra/config.json\"", c!"logFile = \"/var/log/ysshra/gensign.log\""]),
+  (c!"var", [c!"handlerCreators = map[string]gensign.CreateHandler{ regular.HandlerName: regular.NewHandler, }"]),
+  (c!"main func()", [c!"log.Logger = log.Logger.With().Caller().Str(\"app\", \"gensign\").Logger()", c!"zerolog.MessageFieldName = logkey.MsgField", c!"zerolog.ErrorFieldName = logkey.ErrField", c!"file, err := os.OpenFile(logFile, os.O_RDWR|os.O_CREATE|os.O_APPEND, 0664)", c!"if err != nil { log.Fatal().Err(err).Msg(\"failed to create log file\") }", c!"defer file.Close()", c!"log.Logger = log.Logger.Output(io.MultiWriter(file, os.Stderr))", c!"fileLogger := log.Output(file)", c!"golog.SetOutput(file)", c!"conf, err := config.NewGensignConfig(confPath)", c!"if err != nil { log.Fatal().Err(err).Msg(\"failed to load configuration\") }", c!"reqParam, err := csr.NewReqParam(os.Getenv, func() []string { return os.Args })", c!"if err != nil { log.Fatal().Err(err).Msg(\"failed to create request parameter\") }", c!"log.Logger = log.Logger.With().Str(\"id\", reqParam.TransID).Logger()", c!"conn, err := ssh.AgentConn()", c!"if err != nil { log.Fatal().Err(err).Msg(\"failed to initialize the connection for ssh agent\") }", c!"defer conn.Close()", c!"var handlers []gensign.Handler", c!"for hName := range conf.HandlerConfig { create, ok := handlerCreators[hName] if !ok { log.Warn().Msgf(\"cannot find creator for handler %s\", hName) continue } handler, err := create(conf, conn) if err != nil { log.Warn().Err(err).Msgf(\"cannot create handler %s\", hName) continue } handlers = append(handlers, handler) }", c!"signer, err := crypki.NewSignerWithGensignConf(*conf)", c!"if err != nil { log.Fatal().Err(err).Msg(\"failed to create signer\") }", c!"if conf.OTel.Enabled { otelResource, err := resource.Merge( resource.Default(), resource.NewWithAttributes(semconv.SchemaURL, semconv.ServiceNameKey.String(\"gensign\")), ) if err != nil { fileLogger.Warn().Err(err).Msg(\"failed to create oTel resource\") } otelTLSConf, err := tlsutils.TLSClientConfiguration(conf.OTel.ClientCertPath, conf.OTel.ClientKeyPath, []string{conf.OTel.CACertPath}) if err != nil { fileLogger.Warn().Err(err).Msg(\"failed to create oTel TLS config\") } shutdownProvider := otellib.InitOTelSDK(context.Background(), conf.OTel.OTELCollectorEndpoint, otelTLSConf, otelResource) defer func() { if err := shutdownProvider(context.Background()); err != nil { fileLogger.Warn().Err(err).Msg(\"failed to shut down oTel provider\") } }() }", c!"ctx, cancel := context.WithTimeout(context.Background(), conf.RequestTimeout)", c!"defer cancel()", c!"err = gensign.Run(ctx, reqParam, handlers, signer)", c!"if err != nil { if gensign.IsErrorOfType(err, gensign.Panic) { log.Logger = fileLogger } log.Error().Str(logkey.TransIDField, reqParam.TransID).Err(err).Msg(\"failed to run gensign\") }", c!"gensign.ExportGensignRunMetric(ctx, err)"])
+] : List (Str × List Str)) := rfl
+
+theorem sshutils_key_algo_pinned : Gen.SnapGensignAux.sshutils_key_algo = ([
+  (c!"type", [c!"PublicKeyAlgo int"]),
+  (c!"const", [c!"RSA2048 PublicKeyAlgo = iota", c!"RSA4096", c!"ECDSAsecp256r1", c!"ECDSAsecp384r1", c!"ECDSAsecp521r1", c!"ED25519"]),
+  (c!"(PublicKeyAlgo).String func() string", [c!"switch p { case RSA2048: return \"RSA2048\" case RSA4096: return \"RSA4096\" case ECDSAsecp256r1: return \"ECCP256\" case ECDSAsecp384r1: return \"ECCP384\" case ECDSAsecp521r1: return \"ECCP521\" case ED25519: return \"ED25519\" default: return \"\" }"]),
+  (c!"var", [c!"SSHKeyAlgoStrMap = map[string]PublicKeyAlgo{ \"RSA2048\": RSA2048, \"RSA4096\": RSA4096, \"ECCP256\": ECDSAsecp256r1, \"ECCP384\": ECDSAsecp384r1, \"ECCP521\": ECDSAsecp521r1, \"ED25519\": ED25519, }"]),
+  (c!"GetSSHKeyAlgo func(keyType string) (PublicKeyAlgo, error)", [c!"pkAlgo, ok := SSHKeyAlgoStrMap[keyType]", c!"if !ok { return RSA2048, fmt.Errorf(\"failed to create the key algorithm for key type %q, \"+ \"used %s instead\", keyType, RSA2048.String()) }", c!"return pkAlgo, nil"]),
+  (c!"GenerateKeyPair func(pka PublicKeyAlgo) (crypto.PrivateKey, ssh.PublicKey, error)", [c!"return createKeyPair(pka)"]),
+  (c!"createKeyPair func(pka PublicKeyAlgo) (crypto.PrivateKey, ssh.PublicKey, error)", [c!"var ( pubkey interface{} priv interface{} err error )", c!"switch pka { case RSA4096: priv, err = rsa.GenerateKey(rand.Reader, 4096) if err != nil { return nil, nil, err } pubkey = priv.(*rsa.PrivateKey).Public() case ECDSAsecp256r1: priv, err = ecdsa.GenerateKey(elliptic.P256(), rand.Reader) if err != nil { return nil, nil, err } pubkey = priv.(*ecdsa.PrivateKey).Public() case ECDSAsecp384r1: priv, err = ecdsa.GenerateKey(elliptic.P384(), rand.Reader) if err != nil { return nil, nil, err } pubkey = priv.(*ecdsa.PrivateKey).Public() case ECDSAsecp521r1: priv, err = ecdsa.GenerateKey(elliptic.P521(), rand.Reader) if err != nil { return nil, nil, err } pubkey = priv.(*ecdsa.PrivateKey).Public() case ED25519: _, privkey, err := ed25519.GenerateKey(rand.Reader) if err != nil { return nil, nil, err } priv = &privkey pubkey = priv.(*ed25519.PrivateKey).Public() case RSA2048: fallthrough default: priv, err = rsa.GenerateKey(rand.Reader, 2048) if err != nil { return nil, nil, err } pubkey = priv.(*rsa.PrivateKey).Public() }", c!"sshpub, err := ssh.NewPublicKey(pubkey)", c!"if err != nil { return nil, nil, err }", c!"return priv, sshpub, nil"])
+] : List (Str × List Str)) := rfl
+
+theorem sshutils_key_validation_pinned : Gen.SnapGensignAux.sshutils_key_validation = ([
+  (c!"const", [c!"keyFileSizeLimitation = 5 * 1024 * 1024"]),
+  (c!"validateKeyFile func(keyPath string) error", [c!"f, err := os.Open(keyPath)", c!"if err != nil { return err }", c!"defer f.Close()", c!"info, err := f.Stat()", c!"if err != nil { return err }", c!"if info.Size() > keyFileSizeLimitation { return fmt.Errorf(\"size of %q excceeds the limiation, got: %v\", keyPath, info.Size()) }", c!"return nil"])
+] : List (Str × List Str)) := rfl
+
+theorem csr_generator_pinned : Gen.SnapGensignAux.csr_generator = ([
+  (c!"type", [c!"Generator interface { Generate(*ReqParam) ([]AgentKey, error) }"])
+] : List (Str × List Str)) := rfl
+
+theorem csr_signer_pinned : Gen.SnapGensignAux.csr_signer = ([
+  (c!"type", [c!"Signer interface { Sign(ctx context.Context, request *proto.SSHCertificateSigningRequest) (cert []ssh.PublicKey, comment []string, err error) }"])
+] : List (Str × List Str)) := rfl
+
 end Ysshra.Bridge.SnapGensignAux
